@@ -8,7 +8,7 @@
          w       walk begin..end and rbegin..rend    D  paths to every node (steered find)
    After the last op: walk, paths, zix_tree_free.
    Output: "M <observable tokens> || <structural tokens>", "S <observable tokens by the spec>",
-           "X <rotation codes of the case>" (statistics only). *)
+           "X <rotations of the case: i|r + codes per call, comma separated>" (statistics only). *)
 module String = Stdlib.String
 module List = Stdlib.List
 module Array = Stdlib.Array
@@ -57,7 +57,8 @@ let () =
           match AvlModel.path_to id root with
           | Some p -> Printf.sprintf "%d=%s" (iz id) (dots (List.map iz p))
           | None -> Printf.sprintf "%d=?" (iz id)) (AvlModel.walk_fwd root) in
-        add mo "D"; add so "D"; add ms ("D" ^ String.concat ";" ps) in
+        add mo (Printf.sprintf "D:h%d/%d" (iz (AvlModel.height root)) (msize ())); add so "*";
+        add ms ("D" ^ String.concat ";" ps) in
       List.iter (fun tok ->
         let c = tok.[0] in
         let arg () = int_of_string (String.sub tok 1 (String.length tok - 1)) in
@@ -69,7 +70,7 @@ let () =
           let x = (zi k, id) in
           let lg = AvlModel.ins_log rank dup x !st.AvlModel.root in
           let ((((s, it), st'), _), rc) = AvlModel.insert rank dup x o !st in
-          st := st'; rots := !rots @ List.map iz rc;
+          st := st'; if rc <> [] then rots := !rots @ ["i" ^ dots (List.map iz rc)];
           add mo (Printf.sprintf "i:%s:%s:s%d" (status_name s) (opt_id it) (msize ()));
           add ms ("c" ^ dots (List.map iz lg));
           let (((s2, it2), sp'), _) = AvlSpec.sp_insert rank dup x o !sp in
@@ -83,7 +84,7 @@ let () =
              let cls = match AvlModel.node_class (zi id) !st.AvlModel.root with Some c -> iz c | None -> -1 in
              let is_root = (match !st.AvlModel.root with AvlModel.N (i, _, _, _, _) -> iz i = id | AvlModel.E -> false) in
              let (((s, st'), dl), rc) = AvlModel.remove (zi id) !st in
-             st := st'; rots := !rots @ List.map iz rc;
+             st := st'; if rc <> [] then rots := !rots @ ["r" ^ dots (List.map iz rc)];
              add mo (Printf.sprintf "r:%s:%s:s%d" (status_name s)
                        (String.concat "," (List.map (fun (i, _) -> Printf.sprintf "d%d@ok" (iz i)) dl)) (msize ()));
              add ms (Printf.sprintf "k%d%s" cls (if is_root then "R" else "")));
@@ -105,9 +106,11 @@ let () =
            | None ->
              add mo (Printf.sprintf "f:%s:-:s%d" (status_name s) (msize ()));
              add ms (Printf.sprintf "-:c%s" (dots (List.map iz lg))));
+          add mo (Printf.sprintf "fc%d/%d" (List.length lg) (msize ())); add ms "-";
           (match AvlSpec.sfind rank x (fst !sp) with
            | Some (_, (k', _)) -> add so (Printf.sprintf "f:OK:%d:s%d" (iz k') (ssize ()))
-           | None -> add so (Printf.sprintf "f:NOTFOUND:-:s%d" (ssize ())))
+           | None -> add so (Printf.sprintf "f:NOTFOUND:-:s%d" (ssize ())));
+          add so "*"
         | 'g' ->
           let id = arg () in
           (match AvlModel.lookup (zi id) !st.AvlModel.root with
@@ -138,4 +141,4 @@ let () =
       let sl = List.map (fun (i, _) -> iz i) (fst !sp) in
       add so (Printf.sprintf "end:s%d:free=%s:ud=ok" (ssize ()) (dots (sorted_ints sl)));
       Printf.printf "M %s || %s\nS %s\nX %s\n" (Buffer.contents mo) (Buffer.contents ms) (Buffer.contents so)
-        (dots !rots))
+        (String.concat "," !rots))
